@@ -242,7 +242,13 @@ func genModule(pkgs []*packages.Package, m *Module, byName map[string]*Module, o
 				if e.Relied == nil {
 					e.Relied = map[string][]sym.RelyInv{}
 				}
-				e.Relied[target.PkgPath] = append(e.Relied[target.PkgPath], sym.RelyInv{From: um.Name, Inv: inv, File: um.Spec})
+				// read with the definitions of the proving module; names it takes from modules it uses itself (codecs)
+				// are filled in from what is visible here
+				file := um.Spec
+				if merged, err := mergeSpec(um.Spec, e.Specs[target.PkgPath]); err == nil {
+					file = merged
+				}
+				e.Relied[target.PkgPath] = append(e.Relied[target.PkgPath], sym.RelyInv{From: um.Name, Inv: inv, File: file})
 				rr.Relies = append(rr.Relies, fmt.Sprintf("module %s assumes on entry of exported methods the package invariant %s, proved for every exported method in module %s (its obligations are part of this check)", m.Name, inv.Name, um.Name))
 			}
 		}
@@ -422,14 +428,16 @@ func mergeSpec(own, used *spec.File) (*spec.File, error) {
 		m.Folds[k] = v
 	}
 	for k, v := range used.Funcs {
+		if v.InputOnly {
+			continue // an input bound for the used module's own invariant sweep, not a contract
+		}
 		c := *v
 		c.Imported = true
 		m.Funcs[k] = &c
 	}
 	for k, v := range own.Funcs {
-		if prev, dup := m.Funcs[k]; dup && prev.Imported {
-			return nil, fmt.Errorf("function %s is under contract both here and in the used module of the same package", k)
-		}
+		// a function under contract both here and in the used module: this module's contract is the one applied and
+		// verified here (the other one is verified in its own module)
 		m.Funcs[k] = v
 	}
 	m.Axioms = append(append([]*spec.InvDecl{}, used.Axioms...), own.Axioms...)
